@@ -600,11 +600,52 @@ func permLayerRun(ctx *core.Ctx, op string) {
 	}
 }
 
+// keyLengthLayerRun: string keys of every length around the word sizes a byte hash may special-case
+// (1..9, 15..17, 23..25, 31..33, 63..65), the same key stored at every byte alignment (a pad cell of
+// 0..8 bytes in front shifts the column's byte blob), next to keys that differ from it in the
+// first or in the last byte only.
+func keyLengthLayerRun(ctx *core.Ctx, op string) {
+	base := strings.Repeat("abcdefghijklmnopqrstuvwxyz0123456789", 2)
+	for _, l := range []int{1, 2, 3, 4, 5, 6, 7, 8, 9, 15, 16, 17, 23, 24, 25, 31, 32, 33, 63, 64, 65} {
+		k := base[:l]
+		kLast := k[:l-1] + "#"
+		kFirst := "#" + k[1:]
+		for pad := 0; pad <= 8; pad++ {
+			for _, kind := range []model.Kind{model.String, model.Enum} {
+				for _, gn := range []bool{false, true} {
+					if !ctx.Mine() {
+						continue
+					}
+					padCell := model.Null()
+					if pad > 0 {
+						padCell = model.S(strings.Repeat("x", pad))
+					}
+					cells := []model.Cell{padCell, model.S(k), model.S("y"), model.S(k), model.S(kLast), model.S(kFirst), model.S(k)}
+					n := len(cells)
+					kc := model.Col{Name: "k1", Kind: kind, Cells: cells}
+					f := model.Frame{N: n, Cols: []model.Col{kc}}
+					for _, vc := range c04ValCols {
+						if op == "distinct" && vc.Name != "vb" {
+							continue
+						}
+						vc.Cells = append(append([]model.Cell{}, vc.Cells...), vc.Cells[1])[:n]
+						f.Cols = append(f.Cols, vc)
+					}
+					c := groupCase{Op: op, Frame: f, Shape: int(ctx.Index() % int64(model.NShapes)), By: []string{"k1"}, GroupNull: gn}
+					ctx.Exec(c, func() *core.Failure { return runGroupCase(c) })
+					ctx.Outcome("api/key-length-alignment")
+					ctx.Nontrivial(fmt.Sprintf("klen|%d|%d|%s|%v", l, pad, kind, gn))
+				}
+			}
+		}
+	}
+}
+
 func init() {
 	common := []string{
 		"layer 1 drives the repository's hash table (internal/grouper) through its Comparable interface with harness-chosen hash values; layer 2 uses the public API with the real runtime hash",
 		"key equality in the model: same value (0.0 = -0.0), nulls equal only with Null(true)",
-		"cell values limited to the per-type alphabets; at most 2 key columns",
+		"cell values limited to the per-type alphabets (plus string keys of 21 lengths between 1 and 65 bytes at 9 byte alignments); at most 2 key columns",
 	}
 	core.Register(&core.Check{
 		ID:    "C04",
@@ -622,6 +663,7 @@ func init() {
 			largeTableCases(ctx, "groupby")
 			groupLayerRun(ctx, "groupby")
 			permLayerRun(ctx, "groupby")
+			keyLengthLayerRun(ctx, "groupby")
 		},
 		Replay: replayGroup,
 	})
@@ -640,6 +682,7 @@ func init() {
 			largeTableCases(ctx, "distinct")
 			groupLayerRun(ctx, "distinct")
 			permLayerRun(ctx, "distinct")
+			keyLengthLayerRun(ctx, "distinct")
 		},
 		Replay: replayGroup,
 	})
